@@ -17,6 +17,7 @@ RULE = ("same (scheme, configuration, key, database) generator as C01 (configura
         "addresses, param_l in {8,16}); keywords present and absent. Three relations per case: (1) deserialize(serialize(x)) == x "
         "and re-serializes to the same bytes for key, token, EDB, result; (2) a 'server' built only from the JSON round-trip of the "
         "config through the by-name loader, EDB bytes and token bytes returns DB.get(w, empty) after result serialization; "
+        "(2b) for every fifth case the same server runs in ANOTHER PROCESS (fresh interpreter, different hash seed, OS entropy); "
         "(3) a fresh scheme instance with the key reloaded from bytes regenerates byte-identical tokens. Non-trivial = config "
         "differs from the default in a width-bearing field, or some result is non-empty with >= 2 identifiers; distinct = distinct "
         "(scheme, config, sorted length profile, id layout).")
@@ -93,6 +94,7 @@ def run_case(case):
             raise stage_violation(scheme, "client reload: Key.deserialize", e)
 
         kws = list(db.keys())
+        wire_tokens = []
         queries = [(w, "present") for w in kws[:6]]
         queries += [(w, "absent:" + tag) for w, tag in SP.absent_for(case, built)[:4]]
         for w, tag in queries:
@@ -125,6 +127,25 @@ def run_case(case):
             local = built.scheme.Search(built.edb, tok).get_result_list()
             if local != final:
                 raise Violation("%s: local and wire answers differ for %s keyword" % (scheme, tag), "%s:local_vs_wire" % scheme)
+            wire_tokens.append((w, tag, tok_raw))
+        if case.get("process_boundary"):
+            # the same split across a REAL process boundary: a fresh interpreter (own hash seed, own module state, OS entropy)
+            # gets only the JSON config, the index bytes and the token bytes
+            from vlib import fresh
+            out = fresh.run_job({"kind": "server_search", "scheme": scheme, "cfg": cfg2, "edb_hex": edb_raw.hex(),
+                                 "tokens": [t.hex() for _, _, t in wire_tokens]}, hashseed=1 + case["seed"] % 4000)
+            if "error" in out:
+                from vlib.runner import HarnessError
+                raise HarnessError("server child failed: %s" % out["error"])
+            if "exception" in out:
+                raise Violation("%s: a server in another process fails on the serialized index/tokens: %s" % (scheme, out["exception"]),
+                                "%s:other_process:exception" % scheme)
+            for (w, tag, _), got in zip(wire_tokens, out["results"]):
+                want = db.get(w, [])
+                want_hex = sorted(x.hex() for x in want) if out["is_set"] else [x.hex() for x in want]
+                if got != want_hex:
+                    raise Violation("%s: a server in ANOTHER PROCESS returns %d ids for %s keyword %r, expected %d" % (
+                        scheme, len(got), tag, w, len(want)), "%s:other_process:%s" % (scheme, tag.split(":")[0]))
 
 
 def nontrivial(case):
@@ -151,7 +172,9 @@ def classes_of(case):
 
 
 def body(case, res):
-    res.count(SP.fp_of(case), nontrivial(case), classes_of(case), sample=SP.sample_of(case))
+    case.setdefault("process_boundary", case["seed"] % 5 == 0)
+    res.count(SP.fp_of(case), nontrivial(case), classes_of(case) + (["server_in_other_process"] if case["process_boundary"] else []),
+              sample=SP.sample_of(case))
     run_case(case)
 
 
